@@ -1387,6 +1387,33 @@ pub fn run(tier: &str) -> Report {
         for (sig, d) in o.fails { rep.fail(sig, d); }
     }
     rep.extra.insert("cli_family_runs".into(), json!(cli_cases));
+    // ---- ANM entries whose path names a runtime texture ('@…'): with and without an embedded image; whatever compiles
+    //      must read back
+    {
+        let mut n = 0u64;
+        for cl in cls.iter().filter(|c| c.kind == Kind::Anm) {
+            let tool = Tool::new(cl.kind, cl.game);
+            for path in ["@R", "@", "@@x.png", "a@b.png"] { for has_data in ["false", "\"dummy\""] { for two in [false, true] {
+                let e = |p: &str, k: usize| format!("entry {{\n    path: \"{p}\", has_data: {has_data}, img_width: 8, img_height: 4, img_format: 3,\n    sprites: {{ s{k}: {{id: {k}, x: 0.0, y: 0.0, w: 1.0, h: 1.0}} }},\n}}\nscript scr{k} {{ }}\n");
+                let src = if two { format!("{}{}", e(path, 0), e("other.png", 1)) } else { e(path, 0) };
+                let out = drive::compile(tool, src.as_bytes(), &CompileOpts::default());
+                n += 1; rep.evaluations += 1; rep.traces_validated += 1;
+                let det = |what: String| json!({"family": "anm-at-path", "class": cl.name, "source": src, "what": what});
+                if let Some(p) = &out.panic { rep.fail(format!("C03:{}", p.signature()), det(p.text.clone())); continue; }
+                match out.bytes {
+                    None => { if !drive::has_error(&out.diag) { rep.fail(format!("C03:failed-without-error:{}:at-path", cl.name), det(out.diag.clone())); } rep.outcome("at-path:rejected-with-error"); },
+                    Some(bytes) => {
+                        let dec = drive::decompile(tool, &bytes, &DecompOpts::default());
+                        rep.evaluations += 1;
+                        if dec.text.is_none() { rep.outcome("at-path:UNREADABLE"); rep.fail(format!("C03:unreadable-output:{}:at-path", cl.name), det(format!("truth cannot read its own output: {}", head(&dec.diag, 3)))); }
+                        else { rep.outcome("at-path:ok"); }
+                    },
+                }
+            }}}
+        }
+        rep.extra.insert("anm_at_path_cases".into(), json!(n));
+    }
+
     rep.extra.insert("witness_table".into(), json!(witness_table));
     rep.extra.insert("failure_counts".into(), json!(failure_counts));
     rep.extra.insert("rejections_of_fitting_values".into(), json!(unexpected_rejections));
